@@ -166,14 +166,15 @@ theorem qrids_append (q q' : List Item) : qrids (q ++ q') = qrids q ++ qrids q' 
 def givenTags (op : Op) (o : Obs) : List Nat :=
   (if isReqOk op o then [o.assigned] else []) ++ reqTags o.wrote
 
-/-- `specObs` accepts a step exactly when the five clauses hold -/
+/-- `specObs` accepts a step exactly when the five C11 clauses and the C02 clause hold -/
 theorem specObs_ok_iff (cfg : Cfg) (a : Acc) (idx : Nat) (op : Op) (o : Obs) :
     specObs cfg a idx op o = .ok ↔
       ((∀ t ∈ givenTags op o, 2 ≤ t ∧ t < cfg.max) ∧
-       uniqueOk a.unans (reqTags o.wrote) = true ∧
-       (∀ t ∈ o.free, t ∈ a.pfree ∨ answers op t = true ∨ t ∉ a.unans) ∧
+       uniqueOk a.tags (reqTags o.wrote) = true ∧
+       (∀ t ∈ o.free, t ∈ a.pfree ∨ answers op t = true ∨ t ∉ a.tags) ∧
        (isReqOk op o = true → a.pfree ≠ [] → o.assigned ∈ a.pfree) ∧
-       (op ≠ .reopen → o.next ≤ Nat.max a.peak o.tagmap.length + 1)) := by
+       (op ≠ .reopen → o.next ≤ Nat.max a.peak o.tagmap.length + 1) ∧
+       ownReplyBad a op o = none) := by
   unfold specObs givenTags
   simp only
   split
@@ -208,7 +209,7 @@ theorem specObs_ok_iff (cfg : Cfg) (a : Acc) (idx : Nat) (op : Op) (o : Obs) :
         · intro h; cases h
         · intro h; rw [h.2.1] at hu; simp at hu
       · next hu =>
-        have hu' : uniqueOk a.unans (reqTags o.wrote) = true := by simpa using hu
+        have hu' : uniqueOk a.tags (reqTags o.wrote) = true := by simpa using hu
         split
         · next t ht =>
           have hm := List.mem_of_find?_eq_some ht
@@ -224,7 +225,7 @@ theorem specObs_ok_iff (cfg : Cfg) (a : Acc) (idx : Nat) (op : Op) (o : Obs) :
             · exact absurd hp.2 h'
         · next hnone3 =>
           rw [List.find?_eq_none] at hnone3
-          have hrel : ∀ t ∈ o.free, t ∈ a.pfree ∨ answers op t = true ∨ t ∉ a.unans := by
+          have hrel : ∀ t ∈ o.free, t ∈ a.pfree ∨ answers op t = true ∨ t ∉ a.tags := by
             intro t ht
             have := hnone3 t ht
             simp only [Bool.and_eq_true, Bool.not_eq_true', List.contains_eq_mem, decide_eq_false_iff_not,
@@ -254,12 +255,18 @@ theorem specObs_ok_iff (cfg : Cfg) (a : Acc) (idx : Nat) (op : Op) (o : Obs) :
               simp only [Bool.and_eq_true, bne_iff_ne, ne_eq, decide_eq_true_eq] at hhw
               constructor
               · intro h; cases h
-              · intro h; have := h.2.2.2.2 hhw.1; omega
+              · intro h; have := h.2.2.2.2.1 hhw.1; omega
             · next hhw =>
               simp only [Bool.and_eq_true, bne_iff_ne, ne_eq, decide_eq_true_eq, not_and, Nat.not_lt] at hhw
-              constructor
-              · intro _; exact ⟨hr, hu', hrel, hreuse, fun h => by have := hhw h; omega⟩
-              · intro _; rfl
+              split
+              · next p hp =>
+                constructor
+                · intro h; cases h
+                · intro h; rw [h.2.2.2.2.2] at hp; cases hp
+              · next hp =>
+                constructor
+                · intro _; exact ⟨hr, hu', hrel, hreuse, fun h => by have := hhw h; omega, hp⟩
+                · intro _; rfl
 
 /-! ### the invariant -/
 
@@ -283,7 +290,8 @@ structure QInv (unans : List Nat) (m : List (Nat × Nat)) (q : List Item) (reqs 
 
 structure Inv (cfg : Cfg) (a : Acc) (s : St) : Prop where
   pool : PoolInv cfg.max s.pool s.tagmap
-  q : QInv a.unans s.tagmap s.sendq s.reqs
+  q : QInv a.tags s.tagmap s.sendq s.reqs
+  own : ∀ p ∈ a.unans, tmLookup p.1 s.tagmap = some p.2
   pfree : a.pfree = sortNat s.pool.free
   peak : s.pool.next ≤ a.peak + 1
 
@@ -296,7 +304,7 @@ theorem QInv_init (reqs : List Req) : QInv [] [] [] reqs := by
   refine ⟨?_, ?_, ?_⟩ <;> simp [qrids]
 
 theorem Inv_init (cfg : Cfg) (h : 2 ≤ cfg.max) : Inv cfg {} St.init :=
-  ⟨PoolInv_init h, QInv_init _, by simp [St.init, Pool.init, sortNat_nil], by simp [St.init, Pool.init]⟩
+  ⟨PoolInv_init h, QInv_init _, by simp, by simp [St.init, Pool.init, sortNat_nil], by simp [St.init, Pool.init]⟩
 
 /-- handing out tag `t` (popped from the free set, or fresh) and recording it in the tag map -/
 theorem PoolInv_acquire_fresh {max : Nat} {p : Pool} {m : List (Nat × Nat)} (rid : Nat)
@@ -468,28 +476,50 @@ theorem after_peak (a : Acc) (op : Op) (o : Obs) (h : op ≠ .reopen) :
     (a.after op o).peak = Nat.max a.peak o.tagmap.length := by
   cases op <;> first | rfl | exact absurd rfl h
 
-theorem after_unans_other (a : Acc) (op : Op) (o : Obs) (h1 : op ≠ .reopen) (h2 : ∀ m t, op ≠ .process m t) :
-    (a.after op o).unans = a.unans ++ reqTags o.wrote := by
+theorem map_fst_reqPairs (fs : List Frame) : (reqPairs fs).map (·.1) = reqTags fs := by
+  simp [reqPairs, reqTags, List.map_map, Function.comp_def]
+
+theorem after_pairs_other (a : Acc) (op : Op) (o : Obs) (h1 : op ≠ .reopen) (h2 : ∀ m t, op ≠ .process m t) :
+    (a.after op o).unans = a.unans ++ reqPairs o.wrote := by
   cases op <;> first | rfl | exact absurd rfl h1 | exact absurd rfl (h2 _ _)
+
+theorem after_pairs_process (a : Acc) (m : Int) (t : Nat) (o : Obs) :
+    (a.after (.process m t) o).unans = a.unans.filter (fun p => p.1 != t) ++ reqPairs o.wrote := rfl
+
+theorem after_unans_other (a : Acc) (op : Op) (o : Obs) (h1 : op ≠ .reopen) (h2 : ∀ m t, op ≠ .process m t) :
+    (a.after op o).tags = a.tags ++ reqTags o.wrote := by
+  simp only [Acc.tags, after_pairs_other a op o h1 h2, List.map_append, map_fst_reqPairs]
+
+/-- nothing about the tag map changes and no request frame is written: the owners stay right -/
+theorem own_plain {a : Acc} {m : List (Nat × Nat)} {op : Op} {o : Obs}
+    (h : ∀ p ∈ a.unans, tmLookup p.1 m = some p.2) (h1 : op ≠ .reopen) (h2 : ∀ mt t, op ≠ .process mt t)
+    (hw : reqPairs o.wrote = []) : ∀ p ∈ (a.after op o).unans, tmLookup p.1 m = some p.2 := by
+  rw [after_pairs_other a op o h1 h2, hw, List.append_nil]; exact h
+
+theorem ownReplyBad_other (a : Acc) (op : Op) (o : Obs) (h2 : ∀ mt t, op ≠ .process mt t) :
+    ownReplyBad a op o = none := by
+  cases op <;> first | rfl | exact absurd rfl (h2 _ _)
 
 theorem step_pack (cfg : Cfg) (a : Acc) (idx : Nat) (op : Op) (s' : St) (out : Out) (hop : op ≠ .reopen)
     (hpool : PoolInv cfg.max s'.pool s'.tagmap)
-    (hq : QInv (a.after op (obsOf s' out)).unans s'.tagmap s'.sendq s'.reqs)
+    (hown : ∀ p ∈ (a.after op (obsOf s' out)).unans, tmLookup p.1 s'.tagmap = some p.2)
+    (hor : ownReplyBad a op (obsOf s' out) = none)
+    (hq : QInv (a.after op (obsOf s' out)).tags s'.tagmap s'.sendq s'.reqs)
     (hgiven : ∀ t ∈ givenTags op (obsOf s' out), 2 ≤ t ∧ t < cfg.max)
-    (huniq : uniqueOk a.unans (reqTags out.wrote) = true)
-    (hfree : ∀ t ∈ s'.pool.free, t ∈ a.pfree ∨ answers op t = true ∨ t ∉ a.unans)
+    (huniq : uniqueOk a.tags (reqTags out.wrote) = true)
+    (hfree : ∀ t ∈ s'.pool.free, t ∈ a.pfree ∨ answers op t = true ∨ t ∉ a.tags)
     (hreuse : isReqOk op (obsOf s' out) = true → a.pfree ≠ [] → out.assigned ∈ a.pfree)
     (hpk : s'.pool.next ≤ Nat.max a.peak (tmKeys s'.tagmap).length + 1) :
     specObs cfg a idx op (obsOf s' out) = .ok ∧ Inv cfg (a.after op (obsOf s' out)) s' := by
   constructor
   · rw [specObs_ok_iff]
-    refine ⟨hgiven, huniq, ?_, hreuse, ?_⟩
+    refine ⟨hgiven, huniq, ?_, hreuse, ?_, hor⟩
     · intro t ht
       exact hfree t (mem_sortNat.mp ht)
     · intro _
       simp only [obsOf, length_sortNat]
       exact hpk
-  · refine ⟨hpool, hq, ?_, ?_⟩
+  · refine ⟨hpool, hq, hown, ?_, ?_⟩
     · rw [after_pfree]; rfl
     · rw [after_peak _ _ _ hop]
       simp only [obsOf, length_sortNat]
@@ -501,7 +531,7 @@ theorem peak_mono {n p l : Nat} (h : n ≤ p + 1) : n ≤ Nat.max p l + 1 := by
 
 /-- every tag that was free before is accepted by the `release` clause -/
 theorem free_old {a : Acc} {s : St} {op : Op} (hpf : a.pfree = sortNat s.pool.free) :
-    ∀ t ∈ s.pool.free, t ∈ a.pfree ∨ answers op t = true ∨ t ∉ a.unans := by
+    ∀ t ∈ s.pool.free, t ∈ a.pfree ∨ answers op t = true ∨ t ∉ a.tags := by
   intro t ht; left; rw [hpf]; exact mem_sortNat.mpr ht
 
 theorem uniqueOk_nil (u : List Nat) : uniqueOk u [] = true := rfl
@@ -524,7 +554,7 @@ theorem Inv_step_fire (cfg : Cfg) (a : Acc) (s : St) (rid idx : Nat) (h : Inv cf
     simp only [hr] at hen ⊢
     by_cases hev : r.ev = .unfired
     · simp only [hev, ↓reduceIte]
-      refine step_pack cfg a idx (.fire rid) _ _ (by simp) h.pool ?_ ?_ ?_ ?_ ?_ ?_
+      refine step_pack cfg a idx (.fire rid) _ _ (by simp) h.pool (own_plain h.own (by simp) (by simp) rfl) (ownReplyBad_other _ _ _ (by simp)) ?_ ?_ ?_ ?_ ?_ ?_
       · rw [after_unans_other _ _ _ (by simp) (by simp)]
         simp only [obsOf, reqTags, List.filter_nil, List.map_nil, List.append_nil]
         apply QInv_reqs h.q
@@ -564,7 +594,7 @@ theorem Inv_step_ping (cfg : Cfg) (a : Acc) (s : St) (idx : Nat) (h : Inv cfg a 
     specObs cfg a idx .ping (step cfg s .ping).2 = .ok ∧
       Inv cfg (a.after .ping (step cfg s .ping).2) (step cfg s .ping).1 := by
   simp only [step, stepOp]
-  refine step_pack cfg a idx .ping _ _ (by simp) h.pool ?_ ?_ ?_ ?_ ?_ ?_
+  refine step_pack cfg a idx .ping _ _ (by simp) h.pool (own_plain h.own (by simp) (by simp) rfl) (ownReplyBad_other _ _ _ (by simp)) ?_ ?_ ?_ ?_ ?_ ?_
   · rw [after_unans_other _ _ _ (by simp) (by simp)]
     simp only [obsOf, reqTags, List.filter_nil, List.map_nil, List.append_nil]
     exact QInv_append_other .ping (by simp) h.q
@@ -590,7 +620,7 @@ theorem Inv_step_notify (cfg : Cfg) (a : Acc) (s : St) (rid idx : Nat) (h : Inv 
     by_cases hev : r.ev = .fired ∧ r.sub = true
     · rw [if_pos hev]
       -- the request is not in the send queue any more: its callback is subscribed
-      have hreqs : QInv a.unans s.tagmap s.sendq (s.reqs.set rid { r with sub := false, key := .absent }) := by
+      have hreqs : QInv a.tags s.tagmap s.sendq (s.reqs.set rid { r with sub := false, key := .absent }) := by
         apply QInv_reqs h.q
         intro rid' t hi r' hr'
         have hne : rid' ≠ rid := by
@@ -602,7 +632,7 @@ theorem Inv_step_notify (cfg : Cfg) (a : Acc) (s : St) (rid idx : Nat) (h : Inv 
       cases hk : r.key with
       | tag t =>
         simp only
-        refine step_pack cfg a idx (.notify rid) _ _ (by simp) h.pool ?_ ?_ ?_ ?_ ?_ ?_
+        refine step_pack cfg a idx (.notify rid) _ _ (by simp) h.pool (own_plain h.own (by simp) (by simp) rfl) (ownReplyBad_other _ _ _ (by simp)) ?_ ?_ ?_ ?_ ?_ ?_
         · rw [after_unans_other _ _ _ (by simp) (by simp)]
           simp only [obsOf, reqTags, List.filter_nil, List.map_nil, List.append_nil]
           exact QInv_append_other (.discard t) (by simp) hreqs
@@ -613,7 +643,7 @@ theorem Inv_step_notify (cfg : Cfg) (a : Acc) (s : St) (rid idx : Nat) (h : Inv 
         · exact peak_mono h.peak
       | answered =>
         simp only
-        refine step_pack cfg a idx (.notify rid) _ _ (by simp) h.pool ?_ ?_ ?_ ?_ ?_ ?_
+        refine step_pack cfg a idx (.notify rid) _ _ (by simp) h.pool (own_plain h.own (by simp) (by simp) rfl) (ownReplyBad_other _ _ _ (by simp)) ?_ ?_ ?_ ?_ ?_ ?_
         · rw [after_unans_other _ _ _ (by simp) (by simp)]
           simp only [obsOf, reqTags, List.filter_nil, List.map_nil, List.append_nil]
           exact hreqs
@@ -624,7 +654,7 @@ theorem Inv_step_notify (cfg : Cfg) (a : Acc) (s : St) (rid idx : Nat) (h : Inv 
         · exact peak_mono h.peak
       | absent =>
         simp only
-        refine step_pack cfg a idx (.notify rid) _ _ (by simp) h.pool ?_ ?_ ?_ ?_ ?_ ?_
+        refine step_pack cfg a idx (.notify rid) _ _ (by simp) h.pool (own_plain h.own (by simp) (by simp) rfl) (ownReplyBad_other _ _ _ (by simp)) ?_ ?_ ?_ ?_ ?_ ?_
         · rw [after_unans_other _ _ _ (by simp) (by simp)]
           simp only [obsOf, reqTags, List.filter_nil, List.map_nil, List.append_nil]
           exact hreqs
@@ -645,12 +675,19 @@ theorem releaseTag_none {s : St} {t : Nat} (h : tmLookup t s.tagmap = none) : re
   simp [releaseTag, h]
 
 theorem after_unans_process (a : Acc) (m : Int) (t : Nat) (o : Obs) :
-    (a.after (.process m t) o).unans = a.unans.filter (· != t) ++ reqTags o.wrote := rfl
+    (a.after (.process m t) o).tags = a.tags.filter (· != t) ++ reqTags o.wrote := by
+  simp only [Acc.tags, after_pairs_process, List.map_append, map_fst_reqPairs, List.filter_map]
+  rfl
 
 theorem Inv_process_nochange (cfg : Cfg) (a : Acc) (s : St) (mt : Int) (t idx : Nat) (h : Inv cfg a s) :
     specObs cfg a idx (.process mt t) (obsOf s {}) = .ok ∧
       Inv cfg (a.after (.process mt t) (obsOf s {})) s := by
-  refine step_pack cfg a idx (.process mt t) _ _ (by simp) h.pool ?_ ?_ ?_ ?_ ?_ ?_
+  refine step_pack cfg a idx (.process mt t) _ _ (by simp) h.pool ?_ ?_ ?_ ?_ ?_ ?_ ?_ ?_
+  · intro p hp
+    rw [after_pairs_process] at hp
+    simp only [obsOf, reqPairs, List.filter_nil, List.map_nil, List.append_nil] at hp
+    exact h.own p (List.mem_filter.mp hp).1
+  · simp [ownReplyBad, obsOf]
   · rw [after_unans_process]
     simp only [obsOf, reqTags, List.filter_nil, List.map_nil, List.append_nil]
     exact QInv_unans_subset h.q (fun x hx => (List.mem_filter.mp hx).1)
@@ -679,11 +716,24 @@ theorem Inv_step_process (cfg : Cfg) (a : Acc) (s : St) (mt : Int) (t idx : Nat)
         simp only
         have hkey : t ∈ tmKeys s.tagmap := tmLookup_some_key hl
         obtain ⟨hp', hfree', hnext'⟩ := PoolInv_release t h.pool hkey
-        refine step_pack cfg a idx (.process mt t) _ _ (by simp) hp' ?_ ?_ ?_ ?_ ?_ ?_
+        refine step_pack cfg a idx (.process mt t) _ _ (by simp) hp' ?_ ?_ ?_ ?_ ?_ ?_ ?_ ?_
+        · intro p hp
+          rw [after_pairs_process] at hp
+          simp only [obsOf, reqPairs, List.filter_nil, List.map_nil, List.append_nil] at hp
+          obtain ⟨hp1, hp2⟩ := List.mem_filter.mp hp
+          have hne : p.1 ≠ t := by simpa using hp2
+          show tmLookup p.1 (tmErase t s.tagmap) = some p.2
+          rw [tmLookup_erase_ne hne]; exact h.own p hp1
+        · simp only [ownReplyBad, obsOf, List.find?_eq_none, List.mem_filter, beq_iff_eq, List.any_cons,
+            List.any_nil, Bool.or_false, bne_iff_ne, ne_eq, Decidable.not_not, and_imp]
+          intro p hp1 hp2
+          have := h.own p hp1
+          rw [hp2, hl] at this
+          injection this
         · rw [after_unans_process]
           simp only [obsOf, reqTags, List.filter_nil, List.map_nil, List.append_nil]
           -- the answered request's key becomes "answered"
-          have h1 : QInv a.unans s.tagmap s.sendq (setKey s.reqs rid0 .answered) := by
+          have h1 : QInv a.tags s.tagmap s.sendq (setKey s.reqs rid0 .answered) := by
             apply QInv_reqs h.q
             intro rid' t' hi r' hr'
             unfold setKey
@@ -694,7 +744,7 @@ theorem Inv_step_process (cfg : Cfg) (a : Acc) (s : St) (mt : Int) (t idx : Nat)
             · cases hr0 : s.reqs[rid0]? with
               | none => exact ⟨r', hr', rfl, Or.inl rfl⟩
               | some r0 => exact ⟨r', by simp only; rw [set_ne he]; exact hr', rfl, Or.inl rfl⟩
-          have h2 := QInv_unans_subset (u' := a.unans.filter (· != t)) h1
+          have h2 := QInv_unans_subset (u' := a.tags.filter (· != t)) h1
             (fun x hx => (List.mem_filter.mp hx).1)
           apply QInv_erase t h2
           · intro rid' hi r' hr' hk
@@ -745,7 +795,9 @@ theorem Inv_send_other (cfg : Cfg) (a : Acc) (s : St) (idx : Nat) (i : Item) (q 
       Inv cfg (a.after .send (obsOf { s with sendq := q } { wrote := [f] })) { s with sendq := q } := by
   have hrt : reqTags [f] = [] := by
     simp [reqTags, hf]
-  refine step_pack cfg a idx .send _ _ (by simp) h.pool ?_ ?_ ?_ ?_ ?_ ?_
+  have hrp : reqPairs [f] = [] := by
+    simp [reqPairs, hf]
+  refine step_pack cfg a idx .send _ _ (by simp) h.pool (own_plain h.own (by simp) (by simp) hrp) (ownReplyBad_other _ _ _ (by simp)) ?_ ?_ ?_ ?_ ?_ ?_
   · rw [after_unans_other _ _ _ (by simp) (by simp)]
     simp only [obsOf, hrt, List.append_nil]
     have := h.q
@@ -761,7 +813,7 @@ theorem Inv_send_skip (cfg : Cfg) (a : Acc) (s : St) (idx : Nat) (i : Item) (q :
     (h : Inv cfg a s) (hq : s.sendq = i :: q) :
     specObs cfg a idx .send (obsOf { s with sendq := q } {}) = .ok ∧
       Inv cfg (a.after .send (obsOf { s with sendq := q } {})) { s with sendq := q } := by
-  refine step_pack cfg a idx .send _ _ (by simp) h.pool ?_ ?_ ?_ ?_ ?_ ?_
+  refine step_pack cfg a idx .send _ _ (by simp) h.pool (own_plain h.own (by simp) (by simp) rfl) (ownReplyBad_other _ _ _ (by simp)) ?_ ?_ ?_ ?_ ?_ ?_
   · rw [after_unans_other _ _ _ (by simp) (by simp)]
     simp only [obsOf, reqTags, List.filter_nil, List.map_nil, List.append_nil]
     have := h.q
@@ -776,7 +828,7 @@ theorem Inv_send_skip (cfg : Cfg) (a : Acc) (s : St) (idx : Nat) (i : Item) (q :
 /-- a live request at the head of the queue is written: its tag joins the unanswered set -/
 theorem Inv_send_write (cfg : Cfg) (a : Acc) (s : St) (idx rid t : Nat) (q : List Item)
     (h : Inv cfg a s) (hq : s.sendq = .req rid t :: q)
-    (hl : tmLookup t s.tagmap = some rid) (hu : t ∉ a.unans)
+    (hl : tmLookup t s.tagmap = some rid) (hu : t ∉ a.tags)
     (reqs' : List Req) (hreqs' : ∀ rid', rid' ≠ rid → reqs'[rid']? = s.reqs[rid']?) :
     specObs cfg a idx .send (obsOf { s with sendq := q, reqs := reqs' } { wrote := [⟨.req, t, rid⟩] }) = .ok ∧
       Inv cfg (a.after .send (obsOf { s with sendq := q, reqs := reqs' } { wrote := [⟨.req, t, rid⟩] }))
@@ -787,7 +839,14 @@ theorem Inv_send_write (cfg : Cfg) (a : Acc) (s : St) (idx rid t : Nat) (q : Lis
   have hqinv := h.q
   rw [hq] at hqinv
   have hnotin := QInv_head_not_in_tail hqinv
-  refine step_pack cfg a idx .send _ _ (by simp) h.pool ?_ ?_ ?_ ?_ ?_ ?_
+  refine step_pack cfg a idx .send _ _ (by simp) h.pool ?_ (ownReplyBad_other _ _ _ (by simp)) ?_ ?_ ?_ ?_ ?_ ?_
+  · intro p hp
+    rw [after_pairs_other _ _ _ (by simp) (by simp)] at hp
+    have hrp : reqPairs [(⟨.req, t, rid⟩ : Frame)] = [(t, rid)] := by simp [reqPairs]
+    simp only [obsOf, hrp, List.mem_append, List.mem_singleton] at hp
+    rcases hp with hp | hp
+    · exact h.own p hp
+    · subst hp; exact hl
   · rw [after_unans_other _ _ _ (by simp) (by simp)]
     simp only [obsOf, reqTags_req]
     have htail := QInv_tail hqinv
@@ -825,7 +884,7 @@ theorem Inv_send_write (cfg : Cfg) (a : Acc) (s : St) (idx rid t : Nat) (q : Lis
 /-- a request whose deadline passed while it was queued is dropped and its tag released -/
 theorem Inv_send_drop (cfg : Cfg) (a : Acc) (s : St) (idx rid t : Nat) (q : List Item) (r : Req)
     (h : Inv cfg a s) (hq : s.sendq = .req rid t :: q)
-    (hl : tmLookup t s.tagmap = some rid) (hu : t ∉ a.unans) :
+    (hl : tmLookup t s.tagmap = some rid) (hu : t ∉ a.tags) :
     let s1 : St := { s with sendq := q, reqs := s.reqs.set rid r }
     specObs cfg a idx .send (obsOf (releaseTag s1 t).1 {}) = .ok ∧
       Inv cfg (a.after .send (obsOf (releaseTag s1 t).1 {})) (releaseTag s1 t).1 := by
@@ -838,11 +897,18 @@ theorem Inv_send_drop (cfg : Cfg) (a : Acc) (s : St) (idx rid t : Nat) (q : List
   have hqinv := h.q
   rw [hq] at hqinv
   have hnotin := QInv_head_not_in_tail hqinv
-  refine step_pack cfg a idx .send _ _ (by simp) hp' ?_ ?_ ?_ ?_ ?_ ?_
+  refine step_pack cfg a idx .send _ _ (by simp) hp' ?_ (ownReplyBad_other _ _ _ (by simp)) ?_ ?_ ?_ ?_ ?_ ?_
+  · intro p hp
+    rw [after_pairs_other _ _ _ (by simp) (by simp)] at hp
+    simp only [obsOf, reqPairs, List.filter_nil, List.map_nil, List.append_nil] at hp
+    have hne : p.1 ≠ t := by
+      intro e; apply hu; rw [← e]; exact List.mem_map_of_mem hp
+    show tmLookup p.1 (tmErase t s.tagmap) = some p.2
+    rw [tmLookup_erase_ne hne]; exact h.own p hp
   · rw [after_unans_other _ _ _ (by simp) (by simp)]
     simp only [obsOf, reqTags, List.filter_nil, List.map_nil, List.append_nil]
     have htail := QInv_tail hqinv
-    have h1 : QInv a.unans s.tagmap q (s.reqs.set rid r) := by
+    have h1 : QInv a.tags s.tagmap q (s.reqs.set rid r) := by
       apply QInv_reqs htail
       intro rid' t' hi r' hr'
       have hne : rid' ≠ rid := fun e => hnotin t' (e ▸ hi)
@@ -941,7 +1007,14 @@ theorem Inv_req_tag (cfg : Cfg) (a : Acc) (s : St) (e : EvKind) (popped idx t : 
     rcases Nat.lt_or_ge rid s.reqs.length with hlt | hge
     · exact hlt
     · rw [List.getElem?_eq_none hge] at hr; cases hr
-  refine step_pack cfg a idx (.req e popped) s' _ (by simp) hp' ?_ ?_ ?_ ?_ ?_ hpk
+  refine step_pack cfg a idx (.req e popped) s' _ (by simp) hp' ?_ (ownReplyBad_other _ _ _ (by simp)) ?_ ?_ ?_ ?_ ?_ hpk
+  · intro p hp
+    rw [after_pairs_other _ _ _ (by simp) (by simp)] at hp
+    simp only [obsOf, reqPairs, List.filter_nil, List.map_nil, List.append_nil] at hp
+    have hl := h.own p hp
+    have hne : p.1 ≠ t := fun e => hnk (e ▸ tmLookup_some_key hl)
+    show tmLookup p.1 (tmSet t s.reqs.length s.tagmap) = some p.2
+    rw [tmLookup_set_ne _ _ hne]; exact hl
   · rw [after_unans_other _ _ _ (by simp) (by simp)]
     simp only [obsOf, reqTags, List.filter_nil, List.map_nil, List.append_nil]
     refine ⟨?_, ?_, ?_⟩
@@ -1009,7 +1082,7 @@ theorem Inv_step_req (cfg : Cfg) (a : Acc) (s : St) (e : EvKind) (popped idx : N
     by_cases hmax : s.pool.next + 1 = cfg.max
     · -- exhausted: nothing changes but the request counter
       simp only [hmax, ↓reduceIte]
-      refine step_pack cfg a idx (.req e popped) _ _ (by simp) h.pool ?_ ?_ ?_ ?_ ?_ ?_
+      refine step_pack cfg a idx (.req e popped) _ _ (by simp) h.pool (own_plain h.own (by simp) (by simp) rfl) (ownReplyBad_other _ _ _ (by simp)) ?_ ?_ ?_ ?_ ?_ ?_
       · rw [after_unans_other _ _ _ (by simp) (by simp)]
         simp only [obsOf, reqTags, List.filter_nil, List.map_nil, List.append_nil]
         apply QInv_reqs h.q
@@ -1059,14 +1132,14 @@ theorem Inv_step_reopen (cfg : Cfg) (a : Acc) (s : St) (idx : Nat) (hmax : 2 ≤
   simp only [step, stepOp]
   constructor
   · rw [specObs_ok_iff]
-    refine ⟨?_, ?_, ?_, ?_, ?_⟩
+    refine ⟨?_, ?_, ?_, ?_, ?_, rfl⟩
     · simp [givenTags, isReqOk, obsOf, reqTags]
     · exact uniqueOk_nil _
     · intro t ht
       simp [obsOf, St.init, Pool.init, sortNat_nil] at ht
     · simp [isReqOk]
     · intro hc; exact absurd rfl hc
-  · refine ⟨PoolInv_init hmax, QInv_init _, ?_, ?_⟩
+  · refine ⟨PoolInv_init hmax, QInv_init _, by simp [Acc.after], ?_, ?_⟩
     · simp [Acc.after, obsOf]
     · simp [St.init, Pool.init]
 
@@ -1153,7 +1226,10 @@ theorem Inv_trace (cfg : Cfg) (hmax : 2 ≤ cfg.max) : ∀ (ops : List Op) (a : 
   observations alone (`Acc.after`): a written request frame adds its tag, a processed peer frame
   for tag `t` removes `t`, a new connection empties it. -/
 
-def unanswered (h : List (Op × Obs)) : List Nat := (accAfter {} h).unans
+def unanswered (h : List (Op × Obs)) : List Nat := (accAfter {} h).tags
+
+/-- the same with the request id each such frame carried -/
+def unansweredPairs (h : List (Op × Obs)) : List (Nat × Nat) := (accAfter {} h).unans
 
 /-- the free set shown by the last observation of `h` (empty before the first) -/
 def freeBefore (h : List (Op × Obs)) : List Nat := (accAfter {} h).pfree
